@@ -95,6 +95,19 @@ theorem zint_init_range (bits : Nat) (sgn : Bool) (hb : 1 ≤ bits) :
 
 example : (zintRing 8 true).init 200 = -56 := by decide
 
+/-- size-bounded sampling on `ZRing<intN|uintN>`: `GeneralRingRandIter(F, seed, size)` with a sampling size that the element type
+    holds returns an element of `[0, size)`, from every generator state -/
+theorem zring_sized_draw_range (bits : Nat) (sgn : Bool) (hb : 1 ≤ bits) (sz : Int) (h0 : 0 < sz) (h1 : sz ≤ 2 ^ (bits - 1)) (old g : Int) :
+    0 ≤ (rRandomSzD (zintRing bits sgn) sz old g).1 ∧ (rRandomSzD (zintRing bits sgn) sz old g).1 < sz := by
+  have a := Int.emod_nonneg (givNext g) (show sz ≠ 0 by omega)
+  have b := Int.emod_lt_of_pos (givNext g) h0
+  simp only [rRandomSzD, overwrite, zintRing]
+  rw [if_pos (by omega), castSt_id bits sgn _ hb a (by omega)]
+  exact ⟨a, b⟩
+
+example : 0 ≤ (rRandomSzD (zintRing 8 true) 100 (-1) 7).1 ∧ (rRandomSzD (zintRing 8 true) 100 (-1) 7).1 < 100 :=
+  zring_sized_draw_range 8 true (by decide) 100 (by decide) (by decide) _ _
+
 /-! ### the member functions and iterators, for every class -/
 
 section Generic
